@@ -16,7 +16,10 @@ load-balancing policy yields the plan hosts in a scripted arrangement; every pla
 and one statement is executed over the plan (or with explicit ``host=`` targeting).  A third family runs an idempotent
 statement under a speculative execution policy: virtual time passes the speculative delay while the first host's answer
 is held, so 1-2 further executions are in flight on the next usable hosts; then ONE of them answers with an error and a
-scripted decision (RETRY / RETRY_NEXT_HOST / RETHROW) is applied - the error belongs to the host that sent it.  Oracle: the hosts that received
+scripted decision (RETRY / RETRY_NEXT_HOST / RETHROW) is applied - the error belongs to the host that sent it.
+A fourth family lets the speculative timer fire while the CALLER is still inside send_request(): the first host it can
+pick is busy (borrowing blocks 2 s, longer than the speculative delay) or fails at send; plan order must hold all the same
+(that host is given up, the first healthy later host answers; NoHostAvailable only without one, listing every plan host).  Oracle: the hosts that received
 the request (node-side trace) are exactly those a reference walk over (plan, states) visits, in that order; no host
 twice without a RETRY decision; the outcome is the first healthy host's row, or NoHostAvailable whose ``errors`` has
 an entry with a reason of the right kind for every host of the plan and which is raised only after the plan iterator
@@ -62,6 +65,14 @@ def all_cases():
         for seq in itertools.product(SPEC_STATES, repeat=k):
             if seq.count('ok') >= 2:
                 cases.append(('spec', seq))
+    # speculative timer vs. a caller that is still inside send_request(): the first host the caller can pick is busy (borrowing blocks
+    # longer than the speculative delay) or fails at send; before it only hosts without a usable pool, after it anything quiet
+    for npre in range(0, 3):
+        for pre in itertools.product(['missing', 'shut', 'noconn'], repeat=npre):
+            for x in ('busy', 'sendfail'):
+                for npost in range(0, 4 - npre):
+                    for post in itertools.product(SPEC_STATES, repeat=npost):
+                        cases.append(('specbusy', pre + (x,) + post))
     return cases
 
 
@@ -131,8 +142,20 @@ def run_case(seed, mode, states):
     bystanders = [CONTACT] + (['127.0.0.8'] if mode == 'host' else [])
     addrs = plan_addrs + bystanders
     proto = rng.choice([3, 4, 4, 0x42])
-    ch = W.RandomChooser(random.Random(seed * 17 + 3), p_time=0.0, p_preempt=rng.choice([0.0, 0.0, 0.1, 0.3]))
-    env = SimEnv(W.PrefixChooser([]), addresses=addrs)
+    class BoundedTimeChooser(W.RandomChooser):
+        """random chooser that may elect to let virtual time pass at most ``jumps_left`` times while p_time > 0 (keeps the racy
+        window of the specbusy/sendfail variant from running the clock into the reconnection schedule)"""
+        jumps_left = 0
+
+        def choose(self, kind, options):
+            i = W.RandomChooser.choose(self, kind, options)
+            if kind == 'run' and len(options) > 1 and options[-1] == '<time>' and i == len(options) - 1:
+                self.jumps_left -= 1
+                if self.jumps_left <= 0:
+                    self.p_time = 0.0
+            return i
+    ch = BoundedTimeChooser(random.Random(seed * 17 + 3), p_time=0.0, p_preempt=rng.choice([0.0, 0.0, 0.1, 0.3]))
+    env = SimEnv(W.PrefixChooser([]), addresses=addrs, max_virtual_time=1.0e6)    # a few elected time jumps may land on the 5000 s reconnection schedule
     if 'busy' in states:
         env.conn_class.max_in_flight = rng.choice([3, 4])
     plan = Plan()
@@ -159,10 +182,14 @@ def run_case(seed, mode, states):
 
     with env:
         spec_attempts = rng.choice([1, 1, 2])
+        spec_delay = SPEC_DELAY
+        if mode == 'specbusy':
+            spec_attempts = rng.choice([1, 2, 2, 3])
+            spec_delay = rng.choice([0.2, 0.45, 0.9])         # always below the driver's 2 s borrow wait
         prof = ExecutionProfile(load_balancing_policy=lbp)
-        if mode == 'spec':
+        if mode in ('spec', 'specbusy'):
             from cassandra.policies import ConstantSpeculativeExecutionPolicy
-            prof = ExecutionProfile(load_balancing_policy=lbp, speculative_execution_policy=ConstantSpeculativeExecutionPolicy(SPEC_DELAY, spec_attempts))
+            prof = ExecutionProfile(load_balancing_policy=lbp, speculative_execution_policy=ConstantSpeculativeExecutionPolicy(spec_delay, spec_attempts))
         cluster = env.cluster(contact_points=[CONTACT], protocol_version=proto, reconnection_policy=ConstantReconnectionPolicy(5000.0),
                               execution_profiles={EXEC_PROFILE_DEFAULT: prof})
         session = C.connect_deterministically(env, cluster, ch)
@@ -369,7 +396,7 @@ def run_case(seed, mode, states):
                 lbp.order = list(order)
                 fut = rec.execute_async(session, uid, statement=stm, timeout=None)
             env.world.settle(advance=False)
-            env.world.advance_to(env.world.now + SPEC_DELAY * (spec_attempts + 1) + 0.05)
+            env.world.advance_to(env.world.now + spec_delay * (spec_attempts + 1) + 0.05)
             env.world.settle(advance=False)
             with env.world.inspect():
                 during = [s_[0] for s_ in plan.seen[m_seen:] if s_[3] == uid]
@@ -443,8 +470,105 @@ def run_case(seed, mode, states):
                 infos.append(info)
             return v
 
+        def specbusy_statement():
+            """idempotent statement under a speculative policy whose delay is shorter than the time the CALLER spends on the first host it
+            can pick (busy: borrow waits 2 s; sendfail: raises at send).  Reference: plan order - that host is given up first (reason
+            recorded), then the first healthy later host gets the request and its answer completes it; speculative executions only go to
+            healthy hosts after that one; NoHostAvailable only if no later host is healthy, listing every plan host."""
+            uid = next_uid()
+            ua = [h for h in order if st_of[h] == 'ok']
+            nspec = min(spec_attempts, max(0, len(ua) - 1))
+            arrivals = ua[:1 + nspec] if ua else []
+            plan.set(uid, ['hold'] + ['silent'] * 4)
+            stm = SimpleStatement(uid_query(uid), consistency_level=rng.choice(C.CLS), is_idempotent=True)
+            reached_all = not ua
+            for h_ in order:
+                if st_of[h_] == 'sendfail':
+                    down_seen[0] = True
+                    spent.add(h_)
+            m_seen = len(plan.seen)
+            racy = st_of[[h for h in order if st_of[h] in ('busy', 'sendfail')][0]] == 'sendfail'
+            saved = (ch.p_time, ch.p_preempt)
+            lbp.order = list(order)
+            if racy:
+                # the window between picking the host and failing at send is a few statements wide: let the schedule (and time) move inside it
+                ch.jumps_left = rng.choice([1, 2, 3])
+                ch.p_time, ch.p_preempt = 0.25, 0.5
+                fut = rec.execute_async(session, uid, statement=stm, timeout=None)
+                ch.p_time, ch.p_preempt = saved
+            else:
+                with env.world.inspect():
+                    fut = rec.execute_async(session, uid, statement=stm, timeout=None)
+            env.world.settle(advance=False)
+            env.world.advance_to(env.world.now + spec_delay * (spec_attempts + 2) + 0.1)
+            env.world.settle(advance=False)
+            with env.world.inspect():
+                early = rec.outcomes(uid)
+                early_repr = [(o[0], repr(o[3])[:200]) for o in early]
+            for hld in list(env.net.held):
+                if not hld.done and hld.req.get('query') and uid_query(uid) == hld.req.get('query'):
+                    hld.release()
+            env.world.settle(advance=False)
+            lbp.order = None
+            with env.world.inspect():
+                seen = [s_[0] for s_ in plan.seen[m_seen:] if s_[3] == uid]
+                outs = rec.outcomes(uid)
+                info = dict(seed=seed, statement='main', proto=proto, mode='specbusy', plan=list(order), states=list(states), missing_how=dict(missing_how),
+                            target=None, speculative_attempts=spec_attempts, speculative_delay=spec_delay, hosts_that_received=seen,
+                            expected_hosts=arrivals, expected_outcome=('ok', ua[0]) if ua else ('nohost',), outcome_before_any_answer=early_repr,
+                            outcome=[(o[0], repr(o[3])[:300]) for o in outs], decisions=[], errors_answered=0, decision='-')
+                v = []
+                if ua and early:
+                    o = early[0]
+                    if o[0] == 'eb' and isinstance(o[3], NoHostAvailable):
+                        v.append(('no-host-available-although-a-healthy-plan-host-was-tried',
+                                  'NoHostAvailable %r while healthy host(s) %r had the request and had not answered yet (plan %r)' % (
+                                      sorted(h.address for h in o[3].errors), seen, list(order))))
+                    else:
+                        v.append(('outcome-before-any-answer', 'completed with %r %r before any node answered' % (o[0], o[3])))
+                elif seen != arrivals:
+                    if any(h not in ua for h in seen):
+                        v.append(('request-sent-through-unusable-pool', 'hosts %r received the request, healthy plan hosts are %r' % (seen, ua)))
+                    elif len(set(seen)) != len(seen):
+                        v.append(('host-tried-again-without-a-retry-decision', 'hosts that received the request %r, reference %r' % (seen, arrivals)))
+                    else:
+                        v.append(('hosts-not-tried-in-plan-order', 'hosts that received the request %r, reference %r' % (seen, arrivals)))
+                elif sorted(h.address for h in fut.attempted_hosts) != sorted(seen):
+                    v.append(('attempted-hosts-differs-from-hosts-that-received-the-request', 'attempted_hosts %r, node-side %r' % (
+                        [h.address for h in fut.attempted_hosts], seen)))
+                elif not outs:
+                    v.append(('no-outcome-delivered', 'the statement never completed'))
+                elif len(outs) != 1:
+                    v.append(('completed-more-than-once', '%d completions' % len(outs)))
+                elif ua:
+                    rows = list(outs[0][3] or []) if outs[0][0] == 'cb' else []
+                    if outs[0][0] != 'cb' or echoed_uid(rows) != uid or rows[0].node != ua[0]:
+                        v.append(('result-not-from-first-healthy-plan-host', 'expected the row of %s, got %r %r' % (ua[0], outs[0][0], outs[0][3])))
+                else:
+                    o = outs[0]
+                    if o[0] != 'eb' or not isinstance(o[3], NoHostAvailable):
+                        v.append(('plan-exhaustion-not-reported', 'expected NoHostAvailable, got %r %r' % (o[0], o[3])))
+                    else:
+                        got = dict((h.address, e_) for h, e_ in o[3].errors.items())
+                        reasons = dict((h, st_of[h]) for h in order)
+                        if set(got) != set(reasons):
+                            v.append(('no-host-available-errors-incomplete', 'errors lists %r, plan hosts %r' % (sorted(got), sorted(reasons))))
+                        else:
+                            for h_, kind in reasons.items():
+                                if kind == 'shut' and down_seen[0]:
+                                    kind = 'shut-or-removed'
+                                if not reason_kind_ok(kind, got[h_]):
+                                    v.append(('no-host-available-reason-wrong-kind', 'host %s was %s, recorded reason %r' % (h_, kind, got[h_])))
+                                    break
+                for mech, what in v:
+                    viol.append((mech, what, info))
+                infos.append(info)
+            return v
+
         if mode == 'plan':
             v = one_statement('main', None, order, list(states))
+        elif mode == 'specbusy':
+            v = specbusy_statement()
         elif mode == 'spec':
             v = spec_statement()
         else:
@@ -498,7 +622,7 @@ def run(ctx):
                "reason recorded and the walk continues; borrowing from a busy pool may wait (2 s in the driver) before giving up")
     ctx.assume("RETRY_NEXT_HOST with explicit host= targeting has no next host: the expected outcome is NoHostAvailable listing that host")
     cases = all_cases()
-    budget = 32 if ctx.quick else 150
+    budget = 28 if ctx.quick else 150
     base = ctx.seed * 1000003
     done_slice = True
     if ctx.quick:
@@ -509,8 +633,9 @@ def run(ctx):
         todo = []
         r = random.Random(base + (ctx.worker or 0))
         for _ in range(4000):
-            key = r.choices([('plan', 0), ('plan', 1), ('plan', 2), ('plan', 3), ('plan', 4), ('host', 1), ('spec', 2), ('spec', 3), ('spec', 4)],
-                            [1, 8, 20, 30, 40, 12, 4, 8, 10])[0]
+            key = r.choices([('plan', 0), ('plan', 1), ('plan', 2), ('plan', 3), ('plan', 4), ('host', 1), ('spec', 2), ('spec', 3), ('spec', 4),
+                             ('specbusy', 1), ('specbusy', 2), ('specbusy', 3), ('specbusy', 4)],
+                            [1, 8, 20, 30, 40, 12, 4, 8, 10, 1, 8, 10, 8])[0]
             todo.append((r.randrange(1 << 30), r.choice(by_len[key])))
     else:
         w, nw = (ctx.worker or 0), max(1, ctx.nworkers)
@@ -562,6 +687,8 @@ def run(ctx):
             if q['mode'] == 'spec':
                 ctx.count("speculative_statements_decision_" + q['decision'])
                 ctx.count("speculative_statements")
+            if q['mode'] == 'specbusy':
+                ctx.count("speculative_timer_while_caller_in_send_request_statements")
             if q['outcome'] and q['outcome'][0][0] == 'eb':
                 ctx.count("no_host_available_outcomes_checked")
             for s in q['states']:
@@ -579,4 +706,5 @@ def run(ctx):
     ctx.floor_distinct = 120 if ctx.quick else 2000      # the complete enumeration has 4689; ctx.exhaustive says whether it was finished
     ctx.floor_counters = {"statements_judged": 200, "hosts_that_received_compared": 200, "no_host_available_outcomes_checked": 60,
                           "explicit_host_statements": 60, "state_busy": 30, "state_sendfail": 30, "state_missing": 30, "state_shut": 30,
-                          "state_noconn": 30, "state_err_next": 30, "state_err_same": 30, "speculative_statements": 25}
+                          "state_noconn": 30, "state_err_next": 30, "state_err_same": 30, "speculative_statements": 25,
+                          "speculative_timer_while_caller_in_send_request_statements": 25}
